@@ -13,8 +13,11 @@ same state components, same handlers, same order of checks.
   (`dialAns`, `openAns`) and the calls made are recorded in `State.calls`.
 * `debug_assert!`s are an explicit `panicked` flag (the state is otherwise left as the code leaves
   it before the assertion).
-* Ghost components (`log`, `issued`, `cancelSent`, `cancelDone`, `sentOn`, `wire`, `calls`) are
-  never read by the handlers.
+* Ghost components (`log`, `issued`, `cancelSent`, `cancelDone`, `opened`, `sentOn`, `written`,
+  `wire`, `calls`) are never read by the handlers. `opened` records every substream id `open_substream`
+  handed out together with the request it was opened for, `sentOn` every substream on which a
+  request future was started, `written` the payload that future writes on it (once), `wire` what
+  the responder wrote on a substream.
 
 Core Lean only (the model driver links against this file).
 -/
@@ -77,11 +80,25 @@ inductive DialOptions
   | dial | reject
 deriving DecidableEq, Repr
 
-/-- `RequestContext` (fallbacks are not modelled). -/
+/-- A request as handed to the protocol: the payload for the main protocol and, for
+`send_request_with_fallback`, the fallback protocol (names are numbered) with its own payload. -/
+structure Request where
+  main : Payload
+  fallback : Option (Nat × Payload) := none
+deriving DecidableEq, Repr
+
+/-- What the request future writes on a substream negotiated with `negotiated` as fallback protocol
+(`on_outbound_substream`: the fallback request iff the negotiated fallback is the request's). -/
+def Request.payloadFor (r : Request) (negotiated : Option Nat) : Payload :=
+  match negotiated, r.fallback with
+  | some n, some (fn, fr) => if n = fn then fr else r.main
+  | _, _ => r.main
+
+/-- `RequestContext`. -/
 structure Ctx where
   peer : Peer
   rid : Rid
-  request : Payload
+  request : Request
 deriving DecidableEq, Repr
 
 /-- `PeerContext`. -/
@@ -127,7 +144,9 @@ structure State where
   issued : List Ctx := []
   cancelSent : List Rid := []
   cancelDone : List Rid := []
+  opened : List (Sid × Ctx) := []
   sentOn : List (Sid × Ctx) := []
+  written : List (Sid × Payload) := []
   wire : List (Sid × Payload) := []
 
 /-! ## Association lists (first entry with the key) -/
@@ -159,7 +178,7 @@ def emit (s : State) (e : Event) : State := { s with log := s.log ++ [e] }
 
 /-- `on_send_request` followed by `report_request_failure` on error (`handle_user_command`).
 `dialAns` / `openAns` are the answers the service gives if it is called. -/
-def onSendRequest (s : State) (peer : Peer) (rid : Rid) (request : Payload) (opts : DialOptions)
+def onSendRequest (s : State) (peer : Peer) (rid : Rid) (request : Request) (opts : DialOptions)
     (dialAns : Except DialErr Unit) (openAns : Except SubErr Sid) : State :=
   let s := { s with issued := s.issued ++ [⟨peer, rid, request⟩] }
   match alFind peer s.peers with
@@ -181,7 +200,8 @@ def onSendRequest (s : State) (peer : Peer) (rid : Rid) (request : Payload) (opt
       else
         { s with
           peers := alModify peer (fun c => { c with active := setInsert rid c.active }) s.peers
-          pendingOutbound := (sid, ⟨peer, rid, request⟩) :: (alTake sid s.pendingOutbound).2 }
+          pendingOutbound := (sid, ⟨peer, rid, request⟩) :: (alTake sid s.pendingOutbound).2
+          opened := s.opened ++ [(sid, ⟨peer, rid, request⟩)] }
     | .error e => emit s (.requestFailed peer rid (.rejected (.ofSubErr e)))
 
 /-- The loop of `on_connection_established` over the requests that waited for the dial: returns
@@ -199,6 +219,15 @@ def openAll (peer : Peer) (openAns : Nat → Except SubErr Sid) :
       openAll peer openAns rest (i + 1) active outbound (failed ++ [(c.rid, e)])
         (calls ++ [.openSubstream peer (.error e)])
 
+/-- Ghost: the substreams the loop of `on_connection_established` opens, with their requests
+(`openAll` inserts exactly these into `pending_outbound`). -/
+def openedBy (openAns : Nat → Except SubErr Sid) : List Ctx → Nat → List (Sid × Ctx)
+  | [], _ => []
+  | c :: rest, i =>
+    match openAns i with
+    | .ok sid => (sid, c) :: openedBy openAns rest (i + 1)
+    | .error _ => openedBy openAns rest (i + 1)
+
 def reportFailures (peer : Peer) : List (Rid × SubErr) → State → State
   | [], s => s
   | (rid, e) :: rest, s =>
@@ -213,7 +242,8 @@ def onConnectionEstablished (s : State) (peer : Peer) (openAns : Nat → Except 
     | (none, _) => { s with peers := (peer, {}) :: s.peers }
     | (some ctxs, dials) =>
       let r := openAll peer openAns ctxs 0 [] s.pendingOutbound [] s.calls
-      let s := { s with pendingDials := dials, pendingOutbound := r.2.1, calls := r.2.2.2 }
+      let s := { s with pendingDials := dials, pendingOutbound := r.2.1, calls := r.2.2.2,
+                        opened := s.opened ++ openedBy openAns ctxs 0 }
       -- the peer is only registered if a substream could be opened to it
       let s := if r.1.isEmpty then s else { s with peers := (peer, { active := r.1 }) :: s.peers }
       reportFailures peer r.2.2.1 s
@@ -229,8 +259,9 @@ def onConnectionClosed (s : State) (peer : Peer) : State :=
   | (none, _) => s
   | (some ctx, peers) => failAll peer ctx.active { s with peers := peers }
 
-/-- `on_outbound_substream`: the future is pushed; it writes `request` on the substream. -/
-def onOutboundSubstream (s : State) (peer : Peer) (sid : Sid) : State :=
+/-- `on_outbound_substream`: the future is pushed; it writes the request (or the fallback request,
+if the substream was negotiated with the request's fallback protocol) on the substream. -/
+def onOutboundSubstream (s : State) (peer : Peer) (sid : Sid) (fallback : Option Nat) : State :=
   match alTake sid s.pendingOutbound with
   | (none, _) => { s with panicked := true }    -- `debug_assert!(false)`
   | (some ctx, outbound) =>
@@ -238,7 +269,8 @@ def onOutboundSubstream (s : State) (peer : Peer) (sid : Sid) : State :=
       pendingOutbound := outbound
       pendingCancels := ctx.rid :: s.pendingCancels.erase ctx.rid
       pendingInbound := s.pendingInbound ++ [⟨peer, ctx.rid, sid⟩]
-      sentOn := s.sentOn ++ [(sid, ⟨peer, ctx.rid, ctx.request⟩)] }
+      sentOn := s.sentOn ++ [(sid, ⟨peer, ctx.rid, ctx.request⟩)]
+      written := s.written ++ [(sid, ctx.request.payloadFor fallback)] }
 
 /-- `on_substream_open_failure`. -/
 def onSubstreamOpenFailure (s : State) (sid : Sid) (error : SubErr) : State :=
@@ -328,13 +360,13 @@ def onResponseDone (s : State) (f : InFut) : State :=
 inductive Input
   /-- `RequestResponseHandle::send_request` + `SendRequest` command: the id is allocated from the
   shared counter. -/
-  | send (peer : Peer) (request : Payload) (opts : DialOptions)
+  | send (peer : Peer) (request : Request) (opts : DialOptions)
       (dialAns : Except DialErr Unit) (openAns : Except SubErr Sid)
   | cancel (rid : Rid)
   | connectionEstablished (peer : Peer) (openAns : Nat → Except SubErr Sid)
   | connectionClosed (peer : Peer)
   | dialFailure (peer : Peer)
-  | outboundSubstream (peer : Peer) (sid : Sid)
+  | outboundSubstream (peer : Peer) (sid : Sid) (fallback : Option Nat)
   | substreamOpenFailure (sid : Sid) (error : SubErr)
   | inboundSubstream (peer : Peer)
   | futureDone (f : Fut) (res : FutResult)
@@ -350,7 +382,7 @@ def step (s : State) : Input → State
   | .connectionEstablished peer openAns => onConnectionEstablished s peer openAns
   | .connectionClosed peer => onConnectionClosed s peer
   | .dialFailure peer => onDialFailure s peer
-  | .outboundSubstream peer sid => onOutboundSubstream s peer sid
+  | .outboundSubstream peer sid fallback => onOutboundSubstream s peer sid fallback
   | .substreamOpenFailure sid error => onSubstreamOpenFailure s sid error
   | .inboundSubstream peer => onInboundSubstream s peer
   | .futureDone f res => onSubstreamEvent s f res
@@ -359,7 +391,8 @@ def step (s : State) : Input → State
   | .responderWrites sid response => { s with wire := s.wire ++ [(sid, response)] }
 
 /-- What the environment may do in state `s` (the hypotheses of all theorems):
-* substream ids handed out by `open_substream` are fresh (shared `fetch_add` counter);
+* substream ids handed out by `open_substream` are fresh (shared `fetch_add` counter): not the id
+  of a substream opened before (`opened`; in particular not one still waited for or in use);
 * a `SubstreamOpened`/`SubstreamOpenFailure` for an outbound substream names the peer the
   substream was opened to;
 * only futures that exist complete; a request future completes with `Canceled` only if its
@@ -367,11 +400,13 @@ def step (s : State) : Input → State
   future's substream. -/
 def Allowed (s : State) : Input → Prop
   | .send _ _ _ _ openAns =>
-    ∀ sid, openAns = .ok sid → alFind sid s.pendingOutbound = none ∧ ∀ e ∈ s.sentOn, e.1 ≠ sid
+    ∀ sid, openAns = .ok sid →
+      alFind sid s.pendingOutbound = none ∧ (∀ e ∈ s.sentOn, e.1 ≠ sid) ∧ (∀ e ∈ s.opened, e.1 ≠ sid)
   | .connectionEstablished _ openAns =>
-    (∀ i sid, openAns i = .ok sid → alFind sid s.pendingOutbound = none ∧ ∀ e ∈ s.sentOn, e.1 ≠ sid) ∧
+    (∀ i sid, openAns i = .ok sid →
+      alFind sid s.pendingOutbound = none ∧ (∀ e ∈ s.sentOn, e.1 ≠ sid) ∧ (∀ e ∈ s.opened, e.1 ≠ sid)) ∧
     (∀ i j sid, openAns i = .ok sid → openAns j = .ok sid → i = j)
-  | .outboundSubstream peer sid => ∀ ctx, alFind sid s.pendingOutbound = some ctx → ctx.peer = peer
+  | .outboundSubstream peer sid _ => ∀ ctx, alFind sid s.pendingOutbound = some ctx → ctx.peer = peer
   | .futureDone f res =>
     f ∈ s.pendingInbound ∧
     (res = .error .canceled → f.rid ∈ s.cancelSent) ∧
@@ -408,6 +443,28 @@ def dialCount (s : State) (r : Rid) : Nat := (s.pendingDials.map (fun e => ctxCo
 def activeCount (s : State) (r : Rid) : Nat := (s.peers.map (fun e => e.2.active.count r)).sum
 
 def issuedCount (s : State) (r : Rid) : Nat := ctxCount r s.issued
+
+/-- Entries (substream, request) for request `r`. -/
+def pairCount (r : Rid) (l : List (Sid × Ctx)) : Nat := l.countP (fun e => e.2.rid == r)
+
+/-- Substreams ever opened for request `r`. -/
+def openedCount (s : State) (r : Rid) : Nat := pairCount r s.opened
+
+/-- Request futures ever started for request `r` (each writes the request once on its substream). -/
+def sentCount (s : State) (r : Rid) : Nat := pairCount r s.sentOn
+
+def Event.receivedFor (r : Rid) : Event → Bool
+  | .requestReceived _ rid _ => rid == r
+  | _ => false
+
+/-- Number of `RequestReceived` events for the inbound request `r`. -/
+def receivedCount (log : List Event) (r : Rid) : Nat := log.countP (Event.receivedFor r)
+
+/-- Inbound requests still being read. -/
+def inReadCount (s : State) (r : Rid) : Nat := s.pendingInboundRequests.countP (fun f => f.rid == r)
+
+/-- Inbound requests waiting for the user's answer. -/
+def awaitCount (s : State) (r : Rid) : Nat := s.pendingOutboundResponses.countP (fun f => f.rid == r)
 
 /-- The environment owes the protocol nothing: no dial, no substream open, no request future. -/
 def Quiescent (s : State) : Prop :=
